@@ -479,5 +479,164 @@ theorem traverse_time_defined {fs : List (Feat α)} {edges : List (EdgeRec α)} 
       · rename_i tv htv
         exact ⟨tv, by simp only [speedTime?, her, hsp, htv]⟩
 
+/-! ### One route step -/
+
+/-- a successful `edgeTraversal`: the access step (none without a previous edge), then the traversal -/
+theorem edgeTraversal_ok {c : Config α} {e : Nat} {last : Option Nat} {st : List α} {ac tc : α}
+    {st' : List α} (h : edgeTraversal c e last st = .ok (ac, tc, st')) :
+    ∃ st1, (match last with
+            | none => st1 = st
+            | some l => c.access.access c.feats (prevEdge c l e) (nextEdge c l e) st = some st1) ∧
+      c.trav.traverse c.feats c.edges e st1 = some st' := by
+  unfold edgeTraversal at h
+  split at h
+  · cases h
+  · split at h
+    · cases h
+    · rename_i ac' st1 hacc
+      split at h
+      · cases h
+      · rename_i st2 htr
+        split at h
+        · cases h
+        · simp only [Except.ok.injEq, Prod.mk.injEq] at h
+          obtain ⟨_, _, h3⟩ := h
+          subst h3
+          refine ⟨st1, ?_, htr⟩
+          unfold edgeAccess at hacc
+          cases last with
+          | none =>
+            simp only [Except.ok.injEq, Prod.mk.injEq] at hacc
+            exact hacc.2.symm
+          | some l =>
+            simp only at hacc
+            split at hacc
+            · cases hacc
+            · split at hacc
+              · cases hacc
+              · rename_i st1' hst1
+                split at hacc
+                · cases hacc
+                · simp only [Except.ok.injEq, Prod.mk.injEq] at hacc
+                  rw [← hacc.2]
+                  exact hst1
+
+/-- delay term of the turn from route element `l` to route element `e` -/
+def turnDelayTerm (c : Config α) (ftu : TimeUnit) (l e : Nat) : α :=
+  delayTerm c.access ftu (prevEdge c l e) (nextEdge c l e)
+
+theorem stepDelay_none (c : Config α) (ftu : TimeUnit) (e : Nat) : stepDelay c ftu none e = 0 := rfl
+theorem stepDelay_some (c : Config α) (ftu : TimeUnit) (l e : Nat) :
+    stepDelay c ftu (some l) e = turnDelayTerm c ftu l e := rfl
+
+/-- one route step adds the edge's length (feature unit) to the distance slot, whatever the access
+model -/
+theorem step_dist {c : Config α} {i : Nat} {fu : DistanceUnit} (hs : DistSlot c.feats i fu)
+    {e : Nat} {last : Option Nat} {st : List α} {ac tc : α} {st' : List α}
+    (h : edgeTraversal c e last st = .ok (ac, tc, st')) :
+    ∀ x, st[i]? = some x → st'[i]? = some (x + distTerm c.trav c.edges fu e) := by
+  intro x hx
+  obtain ⟨st1, h1, h2⟩ := edgeTraversal_ok h
+  apply traverse_dist_slot hs h2 x
+  cases last with
+  | none => simp only at h1; rw [h1]; exact hx
+  | some l => simp only at h1; rw [access_keeps_distance hs h1]; exact hx
+
+/-- one route step adds the edge's traversal time and the delay of the turn taken to the time slot -/
+theorem step_time {c : Config α} {t : Nat} {ftu : TimeUnit} (hs : TimeSlot c.feats t ftu)
+    {e : Nat} {last : Option Nat} {st : List α} {ac tc : α} {st' : List α}
+    (h : edgeTraversal c e last st = .ok (ac, tc, st')) :
+    ∀ x, st[t]? = some x →
+      st'[t]? = some (x + (timeTerm c.trav c.edges ftu e + stepDelay c ftu last e)) := by
+  intro x hx
+  obtain ⟨st1, h1, h2⟩ := edgeTraversal_ok h
+  cases last with
+  | none =>
+    simp only at h1
+    subst h1
+    rw [stepDelay_none, add_zero]
+    exact traverse_time_slot hs h2 x hx
+  | some l =>
+    simp only at h1
+    have := traverse_time_slot hs h2 _ (access_time_slot hs h1 x hx)
+    rw [this, stepDelay_some, turnDelayTerm]
+    congr 1
+    ring
+
+/-- one route step touches no slot other than "distance" and "time" -/
+theorem step_other {c : Config α} {e : Nat} {last : Option Nat} {st : List α} {ac tc : α}
+    {st' : List α} (h : edgeTraversal c e last st = .ok (ac, tc, st')) :
+    ∀ j, featIndex c.feats "distance" ≠ some j → featIndex c.feats "time" ≠ some j →
+      st'[j]? = st[j]? := by
+  intro j hjd hjt
+  obtain ⟨st1, h1, h2⟩ := edgeTraversal_ok h
+  rw [traverse_other h2 j hjd hjt]
+  cases last with
+  | none => simp only at h1; rw [h1]
+  | some l => simp only at h1; exact access_other h1 j hjt
+
+/-! ### Sums along the route -/
+
+theorem prefixEdges_zero (b : Branch α) (r : List (Branch α)) : prefixEdges (b :: r) 0 = [b.edge] := by
+  simp [prefixEdges]
+
+theorem prefixEdges_succ (b : Branch α) (r : List (Branch α)) (k : Nat) :
+    prefixEdges (b :: r) (k + 1) = b.edge :: prefixEdges r k := by
+  simp [prefixEdges]
+
+/-- if every step adds `d last e` to slot `j`, the slot after `k + 1` elements is the starting value
+plus the sum of the `d`s -/
+theorem accFrom_slot {c : Config α} {j : Nat} {d : Option Nat → Nat → α}
+    (hstep : ∀ (e : Nat) (last : Option Nat) (st : List α) (ac tc : α) (st' : List α),
+      edgeTraversal c e last st = .ok (ac, tc, st') →
+      ∀ x, st[j]? = some x → st'[j]? = some (x + d last e)) :
+    ∀ (route : List (Branch α)) (last : Option Nat) (st : List α) (x : α),
+      AccFrom c last st route → st[j]? = some x →
+      ∀ k (hk : k < route.length),
+        route[k].state[j]? = some (x + stepSum d last (prefixEdges route k))
+  | [], _, _, _, _, _, k, hk => by simp at hk
+  | b :: r, last, st, x, h, hx, k, hk => by
+    have hb := hstep _ _ _ _ _ _ h.1 x hx
+    cases k with
+    | zero =>
+      simp only [List.getElem_cons_zero, prefixEdges_zero, stepSum, add_zero]
+      exact hb
+    | succ k =>
+      have := accFrom_slot hstep r (some b.edge) b.state _ h.2 hb k (by simpa using hk)
+      simp only [List.getElem_cons_succ, prefixEdges_succ, stepSum]
+      rw [this, add_assoc]
+
+theorem stepSum_edges (f : Nat → α) :
+    ∀ (last : Option Nat) (es : List Nat), stepSum (fun _ e => f e) last es = (es.map f).sum
+  | _, [] => rfl
+  | _, e :: r => by simp [stepSum, stepSum_edges f (some e) r]
+
+theorem stepSum_add (d1 d2 : Option Nat → Nat → α) :
+    ∀ (last : Option Nat) (es : List Nat),
+      stepSum (fun l e => d1 l e + d2 l e) last es = stepSum d1 last es + stepSum d2 last es
+  | _, [] => by simp [stepSum]
+  | _, e :: r => by
+    simp only [stepSum, stepSum_add d1 d2 (some e) r]
+    ring
+
+theorem pairs_cons_cons (a b : Nat) (r : List Nat) : pairs (a :: b :: r) = (a, b) :: pairs (b :: r) := by
+  simp [pairs]
+
+theorem stepSum_pairs (g : Nat → Nat → α) :
+    ∀ (last : Option Nat) (es : List Nat),
+      stepSum (fun l e => match l with | none => 0 | some l => g l e) last es =
+        ((pairs (last.toList ++ es)).map (fun p => g p.1 p.2)).sum
+  | none, [] => by simp [stepSum, pairs]
+  | some l, [] => by simp [stepSum, pairs]
+  | none, e :: r => by
+    have := stepSum_pairs g (some e) r
+    simp only [Option.toList_some, List.singleton_append] at this
+    simp only [stepSum, this, Option.toList_none, List.nil_append, zero_add]
+  | some l, e :: r => by
+    have := stepSum_pairs g (some e) r
+    simp only [Option.toList_some, List.singleton_append] at this
+    simp only [stepSum, this, Option.toList_some, List.singleton_append, pairs_cons_cons,
+      List.map_cons, List.sum_cons]
+
 end RouteSums
 end Compass
